@@ -362,6 +362,9 @@ def reference(cfg: dict, obs: dict) -> tuple[list[tuple], bytes, dict]:
         while not slots or n < slots:
             n += 1
             if st["yi"] >= len(yields):
+                left = [a[0] for a in avail[st["n"]:]]
+                if left and not st["closing"]:
+                    raise Mismatch("request-lost", f"requests {left} were never handed to a handler (no further yield was observed)")
                 raise Mismatch("generator-never-reached-its-next-yield", f"the model expects yield #{st['yi'] + 1} of generator {kind!r}")
             y = yields[st["yi"]]
             st["yi"] += 1
@@ -416,7 +419,7 @@ def reference(cfg: dict, obs: dict) -> tuple[list[tuple], bytes, dict]:
 def oracle(cfg: dict, obs: dict) -> tuple[str | None, str, dict]:
     """(symptom or None, message, notes)"""
     if obs["status"] != "ok":
-        sym = {"deadlock": "hang", "horizon": "livelock"}.get(obs["status"].split(":")[0], "harness-main-raised")
+        sym = {"deadlock": "hang", "horizon": "livelock"}.get(obs["status"].split(":")[0], "execution-raised-" + obs["status"][4:].split("(")[0])
         return sym, f"status={obs['status']} log={obs.get('log')}", {}
     if not obs.get("up"):
         return "server-not-up", "", {}
@@ -470,6 +473,8 @@ def classify(got: tuple, want: tuple) -> str:
         return "parse-error-at-wrong-position"
     if g == "thrown":
         return "unexpected-exception-thrown-" + str(got[1])
+    if w == "gen-exit" and g in ("req", "err"):
+        return "request-delivered-after-close"
     if w == "gen-exit":
         return "generator-not-closed-on-disconnect"
     if w == "disc" or g == "disc":
